@@ -7,3 +7,8 @@ import WrglModel.Props.C10
 #print axioms Wrgl.C10_merge_ff_only_rejects
 #print axioms Wrgl.C10_merge_identical_nothing
 #print axioms Wrgl.C10_frame
+#print axioms Wrgl.C10_fact_fetchForceNotAssigned
+#print axioms Wrgl.C10_fact_pushForceNotAssigned
+#print axioms Wrgl.C10_fetch_table_is_model
+#print axioms Wrgl.C10_push_table_is_model
+#print axioms Wrgl.C10_merge_ff_site
